@@ -1558,6 +1558,13 @@ static void gen(const char *prop, RunSpec &spec)
 			if (k < 50) {
 				p.add(4, K_H_CONNECT);
 				uint32_t y = (uint32_t)r.below(100);
+				if (r.chance(1, 3)) {
+					// a strict prefix of a request first, time for the server to take it in, then whatever follows
+					// (usually more than the request has left)
+					p.add(4, K_H_SEND_PREFIX, r.range(1, 23), 0, 0, 0);
+					p.add(4, K_H_SLEEP, r.range(100, 20000));
+					if (r.chance(1, 2)) y = 70 + (uint32_t)r.below(20);
+				}
 				if (y < 35) p.add(4, K_H_SEND_PREFIX, r.range(0, 24), 0, r.chance(1, 2) ? (int64_t)r.range(1, 5) : 0, r.chance(1, 2) ? (int64_t)r.range(10, 20000) : 0);
 				else if (y < 70) p.add(4, K_H_SEND_FIELD, r.below(3), r.below(12));
 				else if (y < 90) p.add(4, K_H_SEND_GARBAGE, r.chance(1, 2) ? (int64_t)r.range(1, 64) : (int64_t)r.range(64, 70000), (int64_t)r.u64() >> 1, r.chance(1, 3) ? (int64_t)r.range(1, 9) : 0, r.chance(1, 3) ? (int64_t)r.range(10, 5000) : 0);
